@@ -5,7 +5,7 @@
    over the whole state, hence over every chunking).  `logical f` = _rbuffer ++ bytes the stream
    has not delivered yet.  `fuel` bounds the model's loops; the hypotheses give a sufficient
    amount, so no result below is the OutOfFuel artefact. *)
-From PV Require Import Bytes C42 C42_proofs.
+From PV Require Import Bytes C42 C42_gen C42_proofs.
 Open Scope Z_scope.
 
 (* any mix of read(n), read(), readline(size), readlines(hint), next -- interleaved with writes,
@@ -94,6 +94,16 @@ Theorem C42_initial_state :
     0 < bufsize f /\ winv f /\ has_lf (wbuf f) = false /\ logical f = sdata s.
 Proof. exact p_initial_state. Qed.
 Print Assumptions C42_initial_state.
+
+(* the model's constants and its reading of the mode string / bufsize argument are those of the
+   source: _DEFAULT_BUFSIZE, the linefeed byte, and -- for every mode string, 11 bufsize arguments and
+   two file sizes -- the FLAG_* bits, _bufsize and initial _pos computed by the real _set_mode
+   (table regenerated from paramiko/file.py on every run by gen/c42.py) *)
+Theorem C42_source_constants :
+  DEFAULT_BUFSIZE = G_DEFAULT_BUFSIZE /\ LF = G_LF /\
+  forallb set_mode_row_ok G_set_mode_table = true /\ (100 < length G_set_mode_table)%nat.
+Proof. exact source_constants. Qed.
+Print Assumptions C42_source_constants.
 
 (* non-vacuity: a concrete run -- chunked reads of 1..2 bytes, partial writes of 1..3 bytes,
    line-buffered "r+" file -- meets the hypotheses and shows the stated results *)
